@@ -93,6 +93,13 @@ PatchNilA(s, v0, j, addl) ==
 \* anonymous Go type without JSON methods (Go's default encoding on both ways)
 KF == IF Known(Ev.type) /\ S(Ev.type).k = "datetime" THEN "codec-named-datetime"
       ELSE IF Known(Ev.type) /\ S(Ev.type).k = "object" /\ S(Ev.type).inlineAddl THEN "codec-addl-inline-composite"
+      \* known finding: a date-time string that sits in an array or is a value of additionalProperties is left to
+      \* encoding/json and time.Time's own UnmarshalJSON, which does not decode JSON escapes: the valid document is refused
+      \* when that string is spelled with \u escapes (escTime: the harness escaped every string of the document, the
+      \* schema puts a date-time string in such a place, and the decoder's complaint is a time that does not parse -
+      \* which for a mutant also takes the place of the error that should have named the faulty property)
+      ELSE IF Ev.ev = "Dec" /\ Ev.escTime /\ ~Ev.decOK /\ Ev.panic = "" THEN "c08-escaped-time-in-collection"
+      ELSE IF Ev.ev = "Body" /\ Ev.escTime /\ Ev.reached /\ ~Ev.ok /\ Ev.panic = "" THEN "c08-escaped-time-in-collection"
       ELSE IF Ev.ev = "Enc" /\ Known(Ev.type) /\ Ev.encOK /\ Ev.j.t # "invalid" /\ C06(Ev) /\ ~C07(Ev)
               /\ C07([Ev EXCEPT !.j = PatchNil(S(Ev.type), Ev.v, Ev.j)]) THEN "c07-nested-array-nil-null"
       ELSE IF Ev.ev = "Enc" /\ Known(Ev.type) /\ Ev.encOK /\ Ev.j.t # "invalid" /\ C06(Ev) /\ ~C07(Ev)
